@@ -832,10 +832,7 @@ End CommitStatements.
 Lemma tables_sorted_thm seg : sorted_tb (commit_table seg) /\ sorted_tb (change_table seg).
 Proof. split; [apply commit_table_sorted|apply change_table_sorted]. Qed.
 
-Lemma checker_sound_thm :
-  (forall k len l, short_ok k len l = true -> short_holds k len l) /\
-  (forall pfx l r positions, res_spec pfx l r positions = true -> res_holds pfx l r positions).
-Proof. split; [exact short_ok_sound|exact res_spec_sound]. Qed.
+
 
 (** * change ids: the same id may live in several segments; matches of one id are merged *)
 Definition matching_entries (pfx : id) (segs : list (@table (list nat))) : list (id * list nat) :=
@@ -1062,3 +1059,40 @@ Lemma refs_shadow_thm k names m :
   (forall j, m <= j -> j < r -> j < length k -> is_name j = true) /\
   (m <= length k -> m <= r).
 Proof. unfold disambiguate_with_refs. apply refs_len_from_spec. lia. Qed.
+
+(** meaning of the ref-aware length check *)
+Definition refs_short_holds (k : id) (len : nat) (names ids : list id) (lower : nat) : Prop :=
+  len <= length k /\ lower <= len /\
+  (len = length k \/ ~ In (firstn len k) names) /\
+  (forall x, In x ids -> x <> k -> matches (firstn len k) x = false) /\
+  (forall l, lower <= l -> l < len ->
+     In (firstn l k) names \/ exists x, In x ids /\ x <> k /\ matches (firstn l k) x = true).
+
+Lemma is_name_spec (p : id) names : existsb (id_eqb p) names = true <-> In p names.
+Proof.
+  rewrite existsb_exists. split.
+  - intros (x & Hx & E). apply id_eqb_spec in E. now subst.
+  - intros H. exists p. split; [assumption|apply id_eqb_refl].
+Qed.
+
+Lemma refs_short_ok_sound k len names ids lower :
+  refs_short_ok k len names ids lower = true -> refs_short_holds k len names ids lower.
+Proof.
+  unfold refs_short_ok, refs_short_holds.
+  rewrite !andb_true_iff, !Nat.leb_le, orb_true_iff, Nat.eqb_eq, negb_true_iff, !forallb_forall.
+  intros [[[[H1 H2] H3] H4] H5]. split; [assumption|]. split; [assumption|]. split; [|split].
+  - destruct H3 as [H3|H3]; [now left|right]. intros C. apply is_name_spec in C. congruence.
+  - intros x Hx N. apply negb_true_iff, H4, others_in. now split.
+  - intros l L1 L2. assert (Hl : In l (seq lower (len - lower))) by (apply in_seq; lia).
+    specialize (H5 l Hl). apply orb_true_iff in H5. destruct H5 as [H5|H5].
+    + left. now apply is_name_spec.
+    + right. apply existsb_exists in H5. destruct H5 as (x & Hx & Hm). apply others_in in Hx.
+      exists x. tauto.
+Qed.
+
+Lemma checker_sound_thm :
+  (forall k len l, short_ok k len l = true -> short_holds k len l) /\
+  (forall pfx l r positions, res_spec pfx l r positions = true -> res_holds pfx l r positions) /\
+  (forall k len names ids lower, refs_short_ok k len names ids lower = true ->
+     refs_short_holds k len names ids lower).
+Proof. split; [exact short_ok_sound|]. split; [exact res_spec_sound|exact refs_short_ok_sound]. Qed.
